@@ -87,7 +87,8 @@ class ReportLuns(SCSICommand):
 
         for l in data["luns"]:
             _r = bytearray(8)
-            encode_dict(l, cls._datain_bits, _r)
+            # accept the "lun<n>" keys unmarshall_datain returns as well as "lun"
+            encode_dict({"lun": v for v in l.values()}, cls._datain_bits, _r)
 
             result += _r
         result[:4] = scsi_int_to_ba(len(result) - 8, 4)
